@@ -175,6 +175,15 @@ def U_bundle():
     b2_terms = [Bund("c"), Anon(s=Sig("u"), sub=Bund("b")), Anon(s=Sig("u"), sub=Anon(x=Sig("u"), y=Sig("v"))),
                 Anon(s=Bref("c", "s"), sub=Bref("c", "sub")), Anon(s=Sig("u"), sub=Bund("tb")), Bund("b"),
                 Anon(s=Sig("u"), sub=Anon(x=Sig("u"), y=Sig("u")))]
+    # equal-width members given in another order than the bundle declares them
+    B3 = {"sigs": [bsig("m", 1), bsig("n", 1)], "subs": [], "roles": []}
+    B3L = [(("m",), 1), (("n",), 1)]
+    cb3 = mod([], bprobes("bp", B3L), [bnd("bp", "B3", port=True)])
+    for t in [Anon(n=Sig("u"), m=Slc(Sig("v"), I(0))), Anon(m=Sig("u"), n=Slc(Sig("v"), I(0))), AnonDict(n=Slc(Sig("v"), I(1)), m=Sig("u")),
+              Anon(n=Bref("b", "x"), m=Sig("u")), Bund("e3")]:
+        insts = [inst("j", "CB3", [("bp", t)])]
+        out.append(("U_bundle", design({"CB3": cb3, "Top": mod(top_sigs, insts + tprobes + bprobes("e3", B3L), top_b + [bnd("e3", "B3")])},
+                                       bundles=dict(bundles, B3=B3))))
     for t in b2_terms:
         insts = [inst("m", "CB2", [("bq", t)])]
         out.append(("U_bundle", design({"CB2": cb2, "Top": mod(top_sigs, insts + tprobes, top_b)}, bundles=bundles)))
